@@ -148,6 +148,19 @@ inductive Err where
   | badchars   -- NewQueryInvalidCharsError
 deriving DecidableEq, Repr
 
+/-- results can be compared by evaluation (used by the `example`s next to the theorems) -/
+instance : DecidableEq (Except Err Bytes)
+  | .ok a, .ok b => if h : a = b then isTrue (h ▸ rfl) else isFalse (fun h' => h (Except.ok.inj h'))
+  | .error a, .error b => if h : a = b then isTrue (h ▸ rfl) else isFalse (fun h' => h (Except.error.inj h'))
+  | .ok _, .error _ => isFalse (fun h => nomatch h)
+  | .error _, .ok _ => isFalse (fun h => nomatch h)
+
+instance : DecidableEq (Except Int Int)
+  | .ok a, .ok b => if h : a = b then isTrue (h ▸ rfl) else isFalse (fun h' => h (Except.ok.inj h'))
+  | .error a, .error b => if h : a = b then isTrue (h ▸ rfl) else isFalse (fun h' => h (Except.error.inj h'))
+  | .ok _, .error _ => isFalse (fun h => nomatch h)
+  | .error _, .ok _ => isFalse (fun h => nomatch h)
+
 def maxQueryLength : Nat := Wtf.Gen.Constants.MaxQueryLength.toNat
 
 /-- `strings.TrimSpace(s) == ""`: every rune is white space (an invalid byte is U+FFFD, not a space) -/
@@ -201,6 +214,24 @@ def validate (q : Bytes) : Except Err Bytes :=
   else match sanitize rs with
     | .error e => .error e
     | .ok cs => .ok (encodeGo cs)
+
+/-! ## Predicates used to state the property -/
+
+/-- the shell metacharacters named by the property text: `< > | & ; $` -/
+def shellMetas : List Nat := [0x3C, 0x3E, 0x7C, 0x26, 0x3B, 0x24]
+def isShellMeta (c : Nat) : Bool := shellMetas.contains c
+
+/-- the characters of a Go string as `range` sees them (an invalid byte is U+FFFD) -/
+def chars (q : Bytes) : List Nat := (decodeGo q).map Rune.val
+
+/-- no two neighbouring characters are both white space -/
+def noAdjSpace : List Nat → Prop
+  | a :: b :: t => ¬ (isSpace a = true ∧ isSpace b = true) ∧ noAdjSpace (b :: t)
+  | _ => True
+
+/-- neither the first nor the last character is white space -/
+def noEdgeSpace (l : List Nat) : Prop :=
+  (∀ x, l.head? = some x → isSpace x = false) ∧ (∀ x, l.getLast? = some x → isSpace x = false)
 
 /-- The input on which a second validation fails (see `Wtf.C14.idem_fails`): 334 invalid bytes.  The check
     takes it from here (driver op `witness`) and runs it on the real code. -/
